@@ -96,6 +96,8 @@ func runC09(c *Ctx) {
 	ruleCompressDst(c, p, "C09.dst")
 	ruleVectoredEquiv(c, p, "C09.vectored")
 	ruleExitGuards(c, p, "C09.guard")
+	rulePacketRead(c, p, "C09.packet-read")
+	rulePacketDeadline(c, p, "C09.deadline")
 	c.R.Assumptions = append(c.R.Assumptions,
 		"(*proto.Writer).Flush writes synchronously (net.Buffers.WriteTo) and drops every reference afterwards (C09.writer.* = the C14 induction steps)",
 		"decided: order of encode / flush / callback / terminator on all paths; not decided: byte equality of each block with the snapshot taken inside the callback")
@@ -246,7 +248,7 @@ func ruleInputStream(c *Ctx, p *core.Program, roles *doRoles, prefix string) {
 	// --- C09.tail
 	rule = prefix + ".tail"
 	c.R.Rule(rule, "end-of-input with rows left sends them: from every io.EOF edge of a callback, the terminator is reachable only through an encodeBlock(Input) or through the false edge of a test `Rows() > 0` of the first input column as it is after the callback returned (a column object fetched before the callback is stale when the callback swaps columns)")
-	rowsFalse := core.CondEdges(streamer, false, func(cond ssa.Value) (bool, bool) {
+	rowsFalse := core.PredEdges(streamer, false, func(cond ssa.Value) (bool, bool) {
 		bo, ok := cond.(*ssa.BinOp)
 		if !ok {
 			return false, false
@@ -265,6 +267,10 @@ func ruleInputStream(c *Ctx, p *core.Program, roles *doRoles, prefix string) {
 			return false, true
 		case bo.Op == token.LSS && zero(bo.X) && isRows(bo.Y): // 0 < rows
 			return true, true
+		case bo.Op == token.LEQ && isRows(bo.X) && zero(bo.Y): // rows <= 0
+			return false, true
+		case bo.Op == token.GEQ && zero(bo.X) && isRows(bo.Y): // 0 >= rows
+			return false, true
 		}
 		return false, false
 	})
@@ -285,7 +291,32 @@ func ruleInputStream(c *Ctx, p *core.Program, roles *doRoles, prefix string) {
 		var fresh []core.Edge
 		for _, e := range rowsFalse {
 			ifi := e.B.Instrs[len(e.B.Instrs)-1].(*ssa.If)
-			bo := ifi.Cond.(*ssa.BinOp)
+			bo, direct := ifi.Cond.(*ssa.BinOp)
+			if !direct {
+				// the test lives in a boolean helper called here, after the callback: it is fresh unless the
+				// caller hands it a column object it fetched before the callback ran
+				ok := true
+				cv, _ := core.StripNot(ifi.Cond)
+				if ex, isEx := cv.(*ssa.Extract); isEx {
+					cv = ex.Tuple
+				}
+				if hc, isCall := cv.(*ssa.Call); isCall {
+					for _, a := range hc.Call.Args {
+						if _, isIface := a.Type().Underlying().(*types.Interface); !isIface {
+							continue
+						}
+						if d, isInstr := a.(ssa.Instruction); !isInstr || core.Dominates(d, call.(ssa.Instruction)) {
+							ok = false
+						}
+					}
+				} else {
+					ok = false
+				}
+				if ok {
+					fresh = append(fresh, e)
+				}
+				continue
+			}
 			ok := true
 			for _, side := range []ssa.Value{bo.X, bo.Y} {
 				cl, isCall := side.(*ssa.Call)
@@ -359,6 +390,74 @@ func ruleInputStream(c *Ctx, p *core.Program, roles *doRoles, prefix string) {
 		}
 		if !bad {
 			c.R.Ok(rule, k, cfg, p.Pos(call.Pos()), "nil result leads back to the callback (or to EOF handling) before any terminator")
+		}
+	}
+
+	// --- C09.eof-once
+	rule = prefix + ".eof-once"
+	c.R.Rule(rule, "end-of-input is final: from every io.EOF edge of a callback call, another callback call is reachable only after the callback variable has been cleared - the path enters a block through an edge on which the variable's phi takes nil (or stores nil to its cell); a path that keeps the callback (for instance because the clearing is nested under a logging condition) asks an exhausted source again and sends its leftover rows a second time")
+	for _, call := range a.C {
+		ev := core.ErrValue(call)
+		if ev == nil {
+			continue
+		}
+		al := core.Aliases(streamer, ev)
+		k := core.CallKey(streamer, call)
+		cbType := call.Common().Value.Type()
+		isCbCall := func(in ssa.Instruction) bool {
+			for _, c2 := range a.C {
+				if c2.(ssa.Instruction) == in {
+					return true
+				}
+			}
+			return false
+		}
+		type edgeKey struct{ from, to *ssa.BasicBlock }
+		seen := map[edgeKey]bool{}
+		var hit ssa.Instruction
+		var visit func(pred, b *ssa.BasicBlock)
+		visit = func(pred, b *ssa.BasicBlock) {
+			if hit != nil || seen[edgeKey{pred, b}] {
+				return
+			}
+			seen[edgeKey{pred, b}] = true
+			idx := -1
+			for i, q := range b.Preds {
+				if q == pred {
+					idx = i
+				}
+			}
+			for _, in := range b.Instrs {
+				switch x := in.(type) {
+				case *ssa.Phi:
+					if idx >= 0 && types.Identical(x.Type(), cbType) && core.IsNilConst(x.Edges[idx]) {
+						return
+					}
+				case *ssa.Store:
+					if _, isCell := x.Addr.(*ssa.Alloc); isCell && core.IsNilConst(x.Val) && types.Identical(x.Val.Type(), cbType) {
+						return
+					}
+				}
+				if isCbCall(in) {
+					hit = in
+					return
+				}
+			}
+			for _, sb := range b.Succs {
+				visit(b, sb)
+			}
+		}
+		eof := eofTrueEdges(streamer, al)
+		for _, e := range eof {
+			visit(e.B, e.B.Succs[e.Succ])
+		}
+		switch {
+		case len(eof) == 0:
+			c.R.Unk(rule, k, cfg, p.Pos(call.Pos()), "no errors.Is(err, io.EOF) test for this callback call")
+		case hit != nil:
+			c.R.Bad(rule, k, cfg, p.Pos(hit.Pos()), "after the callback reported io.EOF it can be called again without having been cleared: the leftover rows are sent, the exhausted source is asked again, and the same rows go out a second time")
+		default:
+			c.R.Ok(rule, k, cfg, p.Pos(call.Pos()), "every way back to a callback call from the EOF edge clears the callback first")
 		}
 	}
 
